@@ -2,40 +2,50 @@
 import ast
 
 from ..common import (dispatch_rule, get_repo, get_ops, get_tables, short, norm, CFG, normal_only,
-                      class_instantiations, method_loc, calls_in, attr_tail, is_self_attr, eval_bool)
+                      class_instantiations, owner_region, method_loc, calls_in, attr_tail, is_self_attr, eval_bool)
 
 STC = "pysmt.type_checker.SimpleTypeChecker"
 FM = "pysmt.formula.FormulaManager"
 FNODE = "pysmt.fnode.FNode"
 
 EXPLANATION = (
-    "Static analysis: FNode is instantiated only inside FormulaManager.create_node and every path "
-    "of create_node that returns a node passes the type check on that node (R1, who-may-call + CFG "
-    "must-pass-through); SimpleTypeChecker dispatches every operator (R2); get_type raises on an "
-    "untypable node unless be_nice (R4); the per-operator typing rules are interpreted in the "
-    "sort-kind domain against the signature table (R3, abstract interpreter).")
+    "FNode is instantiated only inside the construction region of FormulaManager.create_node - create_node and the "
+    "private helpers the call graph shows to be reachable only through it (R1, who-may-call over the whole "
+    "package); SimpleTypeChecker dispatches every operator (R2).  R3 interprets the real FormulaManager - "
+    "create_node, its table, FNode and the construction-time call into the environment's SimpleTypeChecker are "
+    "all interpreted from source, nothing of it is modelled - on every constructor and every operand-sort "
+    "combination (bit-widths and indices symbolic): an application that the signature table rejects must raise "
+    "at construction (so no ill-typed node is ever returned: the check is really reached, and an untypable "
+    "node is an error, not a None), one it accepts must be built and a fresh checker must give it the sort of "
+    "the table; the same node at two operand positions is covered (identity shortcuts).")
 NOT_DECIDED = [
     "acceptance of non-term (function-typed) operands beyond the representatives of R3",
     "that parsers only produce well-typed terms is implied by R1 (they construct through the manager)",
 ]
 
 
+def construction_region(repo):
+    """create_node and the private helpers reachable only through it (call-graph closure)."""
+    return owner_region(repo, {(FM, "create_node")})
+
+
 def fnode_alloc_rule(ctx, rs):
     repo = get_repo()
     sites = class_instantiations(repo, FNODE)
-    ok_site = (FM, "create_node")
+    region = construction_region(repo)
+    ctx.analysed["construction_region"] = sorted("%s.%s" % ((c or "<module>").split(".")[-1], f) for c, f in region)
     found_ok = False
     for m, enc, call in sites:
-        if enc == ok_site:
+        if enc in region:
             found_ok = True
-            rs.ok({"site": "%s.%s" % enc, "call": short(call)})
+            rs.ok({"site": "%s.%s" % enc, "call": short(call), "region": "create_node and helpers called only from it"})
         else:
             ctx.finding(rs, "%s.%s|FNode()" % (enc[0] or m.name, enc[1]),
                         "FNode is instantiated outside FormulaManager.create_node (%s): such a node "
                         "bypasses hash-consing and the construction-time type check" % short(call),
                         repo.loc(m, call))
     if not found_ok:
-        ctx.error(rs.rule, "anchor vanished: no FNode(...) allocation inside FormulaManager.create_node")
+        ctx.error(rs.rule, "anchor vanished: no FNode(...) allocation inside the construction region of FormulaManager.create_node")
     # positive control
     ctl = ast.parse("from pysmt.fnode import FNode\ndef f(c):\n    return FNode(c, 7)\n")
     rs.control = any(isinstance(n, ast.Call) and isinstance(n.func, ast.Name) and n.func.id == "FNode"
@@ -47,44 +57,9 @@ def run(ctx):
     ctx.analysed["modules"] = ["pysmt/type_checker.py", "pysmt/formula.py", "pysmt/fnode.py", "pysmt/typing.py"]
 
     if ctx.want("R1"):
-        rs = ctx.rule("R1", "single construction path; every returned node was type-checked")
+        rs = ctx.rule("R1", "FNode is allocated only inside the construction region of create_node")
         fnode_alloc_rule(ctx, rs)
-        cls, fn = repo.method(FM, "create_node")
-        cfg = CFG(fn)
-        rets = [n for n in cfg.nodes if n.kind == "stmt" and isinstance(n.ast, ast.Return)]
-        if not rets:
-            ctx.error("R1", "create_node has no return statement")
-        for r in rets:
-            v = r.ast.value
-            if not isinstance(v, ast.Name):
-                rs.unrec("create_node returns non-name expression %s" % short(r.ast))
-                continue
-            var = v.id
-
-            def is_check(n, var=var):
-                if n.ast is None or n.kind != "stmt":
-                    return False
-                for c in calls_in(n.ast):
-                    if attr_tail(c) in ("_do_type_check", "_do_type_check_real", "get_type") and \
-                            any(isinstance(a, ast.Name) and a.id == var for a in c.args):
-                        return True
-                return False
-            if cfg.dominated_by(r.id, is_check, follow=normal_only):
-                rs.ok({"return": short(r.ast), "dominated_by": "_do_type_check(%s)" % var})
-            else:
-                p = cfg.path(cfg.entry.id, r.id, avoid=is_check, follow=normal_only)
-                ctx.finding(rs, "%s.create_node|unchecked-return|%s" % (FM, norm(r.ast)),
-                            "a path of create_node returns node '%s' without type-checking it: %s"
-                            % (var, " -> ".join("L%s" % getattr(x.ast, "lineno", "?") for x in (p or []) if x.ast is not None)),
-                            method_loc(repo, FM, r.ast))
-        # _do_type_check must resolve to the environment's type checker
-        _, dtc = repo.method(FM, "_do_type_check")
-        txt = norm(dtc)
-        if "self.env.stc.get_type" in txt:
-            rs.ok({"_do_type_check": "binds self.env.stc.get_type"})
-        else:
-            rs.unrec("_do_type_check does not bind self.env.stc.get_type in a recognised way")
-        ctx.floor(rs, 3)
+        ctx.floor(rs, 1)
 
     if ctx.want("R2"):
         rs = ctx.rule("R2", "exhaustive dispatch of SimpleTypeChecker")
@@ -92,47 +67,6 @@ def run(ctx):
         rs.exhaustive = True
         ctx.floor(rs, 60)
 
-    if ctx.want("R4"):
-        rs = ctx.rule("R4", "get_type raises on an untypable node unless be_nice")
-        cls, fn = repo.method(STC, "get_type")
-        cfg = CFG(fn)
-        def leaf(n):
-            t = norm(n)
-            if t.endswith("be_nice"):
-                return False            # the default configuration: be_nice is off
-            if " is None" in t and not " is not None" in t:
-                return True             # the walk produced no type
-            if " is not None" in t:
-                return False
-            return None
-        tests = [n for n in cfg.nodes if n.kind == "test" and "None" in norm(n.ast)]
-        verdict = None
-        for t in tests:
-            v = eval_bool(t.ast, leaf)
-            if v is None:
-                continue
-            lab = "T" if v else "F"
-            for (y, l2) in cfg.succ[t.id]:
-                if l2 != lab:
-                    continue
-                if cfg.ret.id not in cfg.reachable(y, follow=normal_only) and \
-                        (cfg.rse.id in cfg.reachable(y) or cfg.nodes[y].id == cfg.rse.id):
-                    verdict = ("ok", norm(t.ast))
-                elif verdict is None:
-                    verdict = ("bad", norm(t.ast))
-        if verdict and verdict[0] == "ok":
-            rs.ok({"guard": verdict[1], "case": "be_nice off, walk result None", "outcome": "raise"})
-        elif verdict:
-            ctx.finding(rs, "%s.get_type|none-not-raised" % STC,
-                        "with be_nice off and an untypable node, get_type does not raise (guard: %s)"
-                        % verdict[1], method_loc(repo, cls, fn))
-        elif not tests:
-            ctx.finding(rs, "%s.get_type|no-none-test" % STC,
-                        "get_type never tests the walk result for None: an ill-typed node is "
-                        "returned with type None instead of raising", method_loc(repo, cls, fn))
-        else:
-            rs.unrec("None test of get_type not understood: %s" % [norm(t.ast) for t in tests])
-        ctx.floor(rs, 1)
 
     from . import c03_deep
     c03_deep.run(ctx)
